@@ -269,6 +269,7 @@ Viol(st, tok) ==
            [] ph \in {"start", "prolog", "afterDtd"} -> "NoRoot"
            [] ph = "accept" -> "AfterEnd"
            [] OTHER -> ""
+    [] k = "peref" -> "ParameterEntity"     \* not modelled (XmlLex): no conclusion is drawn
     [] OTHER -> "BadToken"
 
 (***************************************************************************)
@@ -383,7 +384,7 @@ Apply(st, tok) ==
                                       pos |-> TopCount(st), uents |-> {}, nots |-> {}, pis |-> <<>>]]
     [] k = "entity" ->
          IF DeclaredAny(st, tok.n) THEN st   \* the first declaration binds (4.2)
-         ELSE [st EXCEPT !.ents = Append(@, [n |-> tok.n, v |-> tok.v])]
+         ELSE [st EXCEPT !.ents = Append(@, [n |-> tok.n, v |-> StripX(tok.v)])]
     [] k = "uentity" ->
          IF DeclaredAny(st, tok.n) THEN st
          ELSE IF tok.ndata = <<>> THEN [st EXCEPT !.external = @ \cup {tok.n}]
